@@ -63,7 +63,9 @@ Record call := mkcall {
 Record case22 := {
   q_graph : graph;
   q_calls : list call;
-  q_conc_ok : bool              (* harness: every concurrent result equalled the result of the same call made alone *)
+  q_conc_ok : bool;             (* harness: every concurrent result equalled the result of the same call made alone *)
+  q_fail : list (N * N * N)     (* harness: (thread, iteration, index into q_calls) of the first concurrent calls
+                                   whose result (values, error or panic) differed from the alone-run reference *)
 }.
 
 Definition agree22 (c : case22) : bool :=
@@ -75,8 +77,10 @@ Definition agree22 (c : case22) : bool :=
    duplicate-free, valid, complete, minimal plan for THAT call's request, errors are justified,
    and the concurrent calls returned what the same calls return alone *)
 Definition prop_ok22 (c : case22) : bool :=
-  q_conc_ok c &&
+  q_conc_ok c && (match q_fail c with [] => true | _ => false end) &&
   forallb (fun k => req_ok (q_graph c) (mkreq (k_ins k) (k_outs k) false false (k_seq k))) (q_calls c).
 
 Definition show22 (c : case22) :=
-  (run_calls (q_graph c) false None (map (fun k => (k_ins k, k_outs k)) (q_calls c)), q_conc_ok c).
+  (run_calls (q_graph c) false None (map (fun k => (k_ins k, k_outs k)) (q_calls c)), q_conc_ok c,
+   (* (thread, iteration, request) of the failing concurrent calls, with the request *)
+   map (fun f => (f, nth (N.to_nat (snd f)) (map (fun k => (k_ins k, k_outs k)) (q_calls c)) ([], []))) (q_fail c)).
